@@ -124,8 +124,9 @@ def run(eng, rep, tier):
               all(has_fact(ev.facts, "is_production()", True) for ev in prd),
               "duplication and production rules are both processed, each under its kind test",
               "the marking loop does not process both duplication and production rules", se, site=site_of(prog, fe, fe.node))
+    flags = {w.test.id for w in ast.walk(fe.node) if isinstance(w, ast.While) and isinstance(w.test, ast.Name)}
     ors = [s_ for s_ in ast.walk(fe.node) if isinstance(s_, ast.AugAssign) and isinstance(s_.op, ast.BitOr)
-           and isinstance(s_.target, ast.Name) and s_.target.id == "was_modified"]
+           and isinstance(s_.target, ast.Name) and s_.target.id in flags]
     srcs = {ast.unparse(s_.value).split("[")[0] for s_ in ors}
     ob.decide("R7", "C17.4", fe, "continues-while-either-changed", len(srcs) >= 2,
               "the continuation flag accumulates the change flags of both kinds",
